@@ -110,7 +110,16 @@ func BeginRun() {
 }
 
 func SetMode(m int32) { mode.Store(m) }
-func Mode() int32     { return mode.Load() }
+
+// SetYieldEnabled installs a new yield-site filter and forgets the decisions cached under the
+// previous one.
+func SetYieldEnabled(fn func(site string) bool) {
+	mu.Lock()
+	YieldEnabled = fn
+	yieldCache = map[string]bool{}
+	mu.Unlock()
+}
+func Mode() int32 { return mode.Load() }
 
 func curLocked() *actor {
 	id := SimGoid()
